@@ -519,6 +519,41 @@ def history_cases(rng, n):
         out.append({"rule": r, "items": items})
     return out
 
+def suffixed(r, sfx):
+    """the same rule with the field names an earlier run of a suffix item would have produced"""
+    def tree(t):
+        if "map" in t:
+            return {"map": [[f + sfx, mod, [v + sfx for v in vals] if mod == "fieldref" else vals] for f, mod, vals in t["map"]]}
+        if "list" in t:
+            return {"list": [tree(x) for x in t["list"]]}
+        return t
+    return dict(r, fields=[f + sfx for f in r["fields"]], dets=[[n, tree(t)] for n, t in r["dets"]])
+
+def multi_rule_cases(rng, n):
+    """several rules converted one after the other with ONE pipeline object: nothing an item did to an
+    earlier rule may be visible to the conditions evaluated for a later rule"""
+    out = []
+    for _ in range(n):
+        r = gen_rule(rng)
+        if not r["fields"]: r["fields"] = [rng.choice(FIELDS[:3])]
+        names = rule_field_names(r) or ["a"]
+        sfx = rng.choice(["_S", ".x"])
+        c = {"t": "processing_item_applied", "processing_item_id": "i1"}
+        kind = rng.choice(["field", "field", "det", "rule"])
+        gate = {"form": "list", "conds": [["", c]], "link": rng.choice([None, "or"]), "expr": None, "neg": rng.random() < 0.5}
+        first = {"id": "i1", "tr": {"type": "field_name_suffix", "suffix": sfx}, "rule": dict(EMPTY), "det": dict(EMPTY), "field": dict(EMPTY)}
+        mk = rng.choice(["field", "det", "rule"]) if kind != "field" else rng.choice(["field", "det"])
+        if kind == "rule": mk = rng.choice(["rule", "det", "field"])
+        second = {"id": "m", "tr": MARKER[mk], "rule": dict(EMPTY), "det": dict(EMPTY), "field": dict(EMPTY)}
+        second[kind] = gate
+        order = rng.choice([[second, first], [first, second], [second], [dict(second, id="i1")]])
+        if rng.random() < 0.3:
+            order = [{"id": "s", "tr": {"type": "set_state", "key": "k1", "val": 1}, "rule": {"form": "list", "conds": [["", {"t": "processing_state", "key": "k1", "val": 1, "op": "ne"}]], "link": None, "expr": None, "neg": False}, "det": dict(EMPTY), "field": dict(EMPTY)}] + order
+        pre = rng.choice([[r], [r, r], [gen_rule(rng)], [suffixed(r, sfx)]])
+        target = rng.choice([r, suffixed(r, sfx), suffixed(r, sfx)])
+        out.append({"rule": target, "items": order, "pre": pre})
+    return out
+
 def gen_pipe(tier, rng):
     out = sweep()
     bnd = boundary_cases()
@@ -526,8 +561,17 @@ def gen_pipe(tier, rng):
     if tier == "quick":
         out = rng.sample(out, 480)
     out += bnd
-    out += [gen_random_case(rng) for _ in range(nrand)]
-    out += history_cases(rng, nhist)
+    rnd = [gen_random_case(rng) for _ in range(nrand)]
+    for c in rnd:
+        if rng.random() < 0.3:
+            c["pre"] = [c["rule"]] if rng.random() < 0.6 else [gen_rule(rng)]
+    out += rnd
+    hist = history_cases(rng, nhist)
+    for c in hist:
+        if rng.random() < 0.4:
+            c["pre"] = [c["rule"]]
+    out += hist
+    out += multi_rule_cases(rng, 150 if tier == "quick" else 2500)
     return out
 
 # ---- known findings ----------------------------------------------------------------------
@@ -538,8 +582,6 @@ def one_to_many(it): return it["tr"]["type"] == "field_name_mapping" and any(isi
 def known_pipe(c, r):
     if any(renaming(it) and has_fapplied(it) for it in c["items"]):
         return "C13-F1-field-name-tracking-by-name"
-    if any(one_to_many(it) for it in c["items"][1:]):
-        return "C13-F2-one-to-many-copies-forget-history"
     return None
 
 def mutate_pipe(c, rng):
@@ -645,7 +687,8 @@ PROPERTY = Property(
          "expressions x negation flag; (b) random rules x pipelines of 1-5 items (set_state, change_logsource, suffix, prefix, 1:1 and 1:n "
          "mapping, set_custom_attribute, set_value) whose three groups draw from every built-in condition class with random parameters, "
          "list or map form, linking, expressions of up to 5 leaves, negation flags, plus malformed configurations; (c) rename histories "
-         "followed by processing_item_applied conditions. expr: all expression shapes up to 4 (quick) / 5 leaves, hostile strings, random "
+         "followed by processing_item_applied conditions; (d) several rules converted one after the other with the same pipeline object "
+         "(field-level processing_item_applied / processing_state conditions must not see an earlier rule). expr: all expression shapes up to 4 (quick) / 5 leaves, hostile strings, random "
          "renderings with insertions. non-trivial = some item has a non-empty condition group (pipe) / the text contains an operator or "
          "parenthesis (expr); distinct by (suite, case hash)",
     assumptions=[
